@@ -303,6 +303,10 @@ def gen_filter(rng, docs, **kw):
         return {}
     if r < 0.35 and '_id' in base:
         return {'_id': base['_id']}
+    if r < 0.42 and '_id' in base:
+        # the _id constrained by an operator
+        return {'_id': rng.choice([{'$in': [base['_id'], 99]}, {'$gte': base['_id']}, {'$ne': 99},
+                                   {'$eq': base['_id']}, {'$exists': True}])}
     return gen.filter_(rng, base, depth=1, malformed=rng.random() < 0.05, **kw)
 
 
@@ -500,4 +504,59 @@ def gen_history(rng, n_ops, weights=None, pre5=False, first=None, **kw):
         op = gen_op(rng, docs, weights, **kw)
         ops.append(op)
         obs, _ = run_history(ops, pre5)
+    return ops
+
+
+def gen_focus_unique(rng):
+    """Focused histories for unique indexes: one (possibly compound, sparse, partial) unique index
+    created before, in the middle of, or after the data; a tiny value domain including dates and
+    ObjectIds; writes that change the key fields or only the partial-filter field."""
+    K = rng.choice(['a', 'b'])
+    K2 = rng.choice([None, None, 'c'])
+    P = rng.choice(['x', 'p'])
+    vals = [1, 2, 1, gen.BASE_DATE, common.make_oid(1), None]
+    key = [[K, 1]] + ([[K2, 1]] if K2 else [])
+    idx = {'op': 'create_index', 'key': key, 'unique': True, 'sparse': rng.random() < 0.4}
+    if rng.random() < 0.45:
+        idx['partial'] = {P: {'$exists': True}}
+
+    def doc(i):
+        d = {'_id': i}
+        if rng.random() < 0.85:
+            d[K] = rng.choice(vals)
+        if K2 and rng.random() < 0.5:
+            d[K2] = rng.choice([1, 2])
+        if rng.random() < 0.5:
+            d[P] = 1
+        return d
+    n = rng.choice([2, 3, 4])
+    inserts = [{'op': 'insert_one', 'doc': doc(i)} for i in range(1, n + 1)]
+    pos = rng.choice([0, 0, 1, n, n])
+    ops = [{'op': 'clock', 't': 0}] + inserts[:pos] + [idx] + inserts[pos:]
+    for _ in range(rng.choice([1, 2, 3, 4])):
+        i = rng.randrange(1, n + 1)
+        r = rng.random()
+        if r < 0.5:
+            u = rng.choice([{'$set': {K: rng.choice(vals)}}, {'$set': {P: 1}}, {'$unset': {P: ''}},
+                            {'$unset': {K: ''}}, {'$set': {K: rng.choice(vals), P: 1}}]
+                           + ([{'$set': {K2: rng.choice([1, 2])}}] if K2 else []))
+            ops.append({'op': 'update', 'filter': {'_id': i}, 'update': u,
+                        'multi': False, 'upsert': False})
+        elif r < 0.62:
+            ops.append({'op': 'replace', 'filter': {'_id': i}, 'repl': {k: v for k, v in doc(i).items() if k != '_id'},
+                        'upsert': False})
+        elif r < 0.72:
+            ops.append({'op': 'update', 'filter': {K: rng.choice(vals)}, 'update': {'$set': {P: 1}},
+                        'multi': rng.random() < 0.5, 'upsert': True})
+        elif r < 0.8:
+            ops.append({'op': 'fam', 'kind': 'update', 'filter': {'_id': i}, 'sort': [], 'proj': None,
+                        'upsert': False, 'after': rng.random() < 0.5,
+                        'arg': {'$set': {K: rng.choice(vals)}}})
+        elif r < 0.9:
+            ops.append({'op': 'bulk', 'reqs': [{'kind': 'insert_one', 'doc': doc(10 + i)},
+                                                {'kind': 'update_one', 'filter': {'_id': i},
+                                                 'update': {'$set': {K: rng.choice(vals)}}, 'upsert': False}],
+                        'ordered': rng.random() < 0.5})
+        else:
+            ops.append({'op': 'insert_one', 'doc': doc(20 + i)})
     return ops
